@@ -17,11 +17,19 @@ Ops(kind) ==
 Kinds == {"Container", "Store", "PriorityStore", "FilterStore", "Resource", "PriorityResource", "PreemptiveResource"}
 Caps(kind) == IF kind = "Container" THEN {2, 3} ELSE {1, 2}
 Inits(kind) == IF kind = "Container" THEN {0, 1} ELSE {0}
-Init == \E kind \in Kinds : \E cap \in Caps(kind) : \E init \in Inits(kind) : \E n \in 1..MaxLen :
-          \E h \in [1..n -> Ops(kind)] : sc = [kind |-> kind, cap |-> cap, init |-> init, hist |-> h]
+\* FilterStore gets one more operation when two of them share a time step (several items at one queue evaluation)
+LenOf(kind) == IF kind = "FilterStore" THEN MaxLen + 1 ELSE MaxLen
+Init == \E kind \in Kinds : \E cap \in Caps(kind) : \E init \in Inits(kind) : \E n \in 1..LenOf(kind) :
+          \E h \in [1..n -> Ops(kind)] : \E pair \in 0..(n - 1) :
+             /\ (n > MaxLen => pair > 0)
+             \* same-step pairs of puts / gets on the stores (grants triggered by callbacks happen later in the same step;
+             \* with cancel / release in the pair the deferred callbacks matter and the sequential semantics does not apply)
+             /\ (pair > 0 => (kind \in {"Store", "FilterStore", "Container"}
+                              /\ h[pair].op \in {"put", "get"} /\ h[pair + 1].op \in {"put", "get"}))
+             /\ sc = [kind |-> kind, cap |-> cap, init |-> init, hist |-> h, pair |-> pair]
 Next == UNCHANGED sc
 Spec == Init /\ [][Next]_sc
-Fin == Run(New(sc.kind, sc.cap, sc.init), sc.hist, 1)
+Fin == RunP(New(sc.kind, sc.cap, sc.init), sc.hist, 1, sc.pair)
 \* laws
 WithinCapacity == /\ Fin.level <= sc.cap /\ Len(Fin.items) <= sc.cap /\ Len(Fin.users) <= sc.cap
 RECURSIVE Sum(_)
